@@ -1,6 +1,6 @@
 """C10 - Regenerated profile text preserves every token (grammar-level analysis).
 
-R1/R2/R5/R7 work on the compiled grammar (R7: on its terminal table).  R3 and R8 are about the Python side of the round
+R1/R2/R5/R7/R9 work on the compiled grammar (R7: on its terminal table).  R3 and R8 are about the Python side of the round
 trip and locate their subjects by role:
 
 * the *renderer* is the function of c2profile.py that calls `.reconstruct(...)` on a lark `Reconstructor(...)`
@@ -50,6 +50,18 @@ trip and locate their subjects by role:
   The builder API (`set_option` ...: methods that never see a parser result) is not concerned.  A part handed to lark's
   `visit`/`transform` dispatch -> undecided.
 
+* R9 (every statement form of the profile language is still accepted in its block context): the compiled grammar is turned
+  into its language view - block context (stack of enclosing block keywords) -> the terminal sequences of the statement
+  forms accepted there (`set verb <STRING> ;`, `header <STRING> <STRING> ;`, `metadata { }`, `http-get <STRING> { }`) -
+  looking through everything that leaves no token (rule names, `?`/`_` rules, unit productions, lark's repetition helpers,
+  the steps/termination wrapper, alternative order, shared rule or one copy per block; nonterminals outside the braces are
+  replaced by the finitely many token sequences they derive, the OPTION terminal by its words).  The view is compared
+  completely with the reference table `_LANGUAGE` (34 contexts, 320 forms).  A reference form missing from its context is
+  a statement the parser now rejects and a tree the reconstructor cannot print -> violated (reported once, at the outermost
+  context: the contexts inside a lost block are not listed again).  Further forms are no concern.  A production the view
+  cannot render (recursion / a block outside braces, too many alternatives) makes the contexts at and below it that miss a
+  form undecided.
+
 Undecided (never violated): no reconstruct call / no post-processor function can be located, or the post-processor has
 a form the value flow does not recognise (`_Undecided`, `_Unk` values: several buffers, a pipeline of generators, zip or
 comprehension based emission, `try`/`with`/general `while`).  Nothing of /repo is imported or executed.
@@ -74,6 +86,11 @@ Technique (numbers: RULES_GUIDE "What counts as static here", ALLOWED 1-6)
       expressions such as `" " * 4`, `frozenset("{};")`).  Assumptions A1 (the stream is a sentence of the grammar), A2
       (line length is unbounded).  No stream, line length or item text is ever chosen by the checker.
   R5  6 (every block rule of the compiled grammar has an alternative with an empty body).
+  R9  6 (the compiled production table folded into the table block context -> statement forms by one walk over the
+      productions from `start`, memoised per (nonterminal, context); regexp terminals that are a finite alternation of
+      literals read off their syntax tree; complete comparison with the reference table `_LANGUAGE` of this module) +
+      5 (the vocabulary is the grammar's own productions and the reference table).  No profile text is formed, lexed or
+      parsed.
   R6  imported C12.R4 (regex syntax tree of the STRING terminal) - see rules/c12.py.
   R7  6 (compiled terminal table: priority, width, pattern of every terminal, compared completely in lark's documented
       lexer order; regexp terminals and string terminals inspected as syntax trees: first-character classes, the shape
@@ -115,7 +132,9 @@ def run(ctx):
         "are summarised from one walk of their body; nothing is executed and no input stream is chosen): on every path "
         "yielded items ++ buffer == W, each item unchanged, once, in order, words kept apart; the paths that keep the "
         "buffer are not taken for the symbols a sentence of the grammar can end with (LAST set of `start`, computed from "
-        "the rules). Plus as_text/from_text use the same parser on the profile's own tree / source. Plus (R7) the ignored "
+        "the rules). Plus (R9) the language view of the compiled grammar (block context -> terminal sequences of the statement forms accepted there, looking through rule names, "
+        "inline / unit productions and repetition helpers) covers the reference table of the profile language: every block, variant form, option, data-transform, execute and "
+        "BeaconGate statement is still accepted where it was. Plus as_text/from_text use the same parser on the profile's own tree / source. Plus (R7) the ignored "
         "terminals (comments, whitespace) keep lexical precedence: no terminal of a reachable rule that lark's lexer tries "
         "earlier (order: priority, width, pattern length, name; first match wins) has a word that begins a comment / "
         "whitespace word - decided on the terminal table and regex syntax trees. Plus (R8) no function that obtains the "
@@ -133,9 +152,13 @@ def run(ctx):
                        "terminal shadows a production (the `\"#\" \"dns_resolver\"` line can never be lexed: it is printed as a comment and read as one)",
                        "R8: modifications of the tree by code outside the package that is handed a part of it (lark's visit / transform dispatch: undecided; other library calls: trusted not to "
                        "modify), by methods the application calls between from_text and as_text (builder API), through a `tree` property / __setattr__ hook, or through aliases kept in containers"]
+    rep.not_decided.append("R9: statement forms the grammar accepts beyond the reference table (additions are not judged); the ORDER constraints inside a block (steps before the termination "
+                           "statement of a data transform); productions the language view cannot render (a block or recursion outside the braces of a production): undecided")
     rep.trusted_base = ["lark 1.3.1 grammar loader and its TreeMatcher grouping rule (lark/tree_matcher.py: rules equal on (origin, kept expansion) are merged, first wins)",
                         "lark 1.3.1 Reconstructor.reconstruct(tree, postproc=None, insert_spaces=True): the item stream (one str per terminal of the matched rules, in sentence order) is passed "
                         "through postproc and joined; with insert_spaces a space is put between two consecutive non-empty yielded strings whose facing characters are identifier characters",
+                        "reference table `_LANGUAGE` in rules/c10.py: the statement forms of the Malleable C2 profile language per block context (34 contexts, 320 forms) as supported by the "
+                        "grammar this checker was written against - the meaning of `every statement form the grammar supports` in the property",
                         "CPython ast; python's sre parser for the syntax tree of regexp terminals",
                         "lark 1.3.1 lexer (lark/lexer.py): BasicLexer sorts the terminals by (-priority, -max_width, -len(pattern), name) and its Scanner joins them into one alternation, so the "
                         "first terminal in that order that matches at a position wins; the contextual lexer does the same per parser state with the terminals the state accepts plus the ignored ones",
@@ -161,6 +184,7 @@ def run(ctx):
     r2(ctx, g)
     r3(ctx, g)
     r5(ctx, g)
+    r9(ctx, g)
     r7(ctx, g)
     r8(ctx, g)
     # the STRING terminal decides where a literal ends: its regex structure (C12.R4) is a necessary condition for every
@@ -2810,6 +2834,239 @@ def r5(ctx, g: Grammar):
         ctx.rep.ob("R5", "GRAM", f"c2profile.lark::{origin_}::{name} {{}}", ok, f"block `{name}` of rule {origin_} has an alternative with an empty body={ok}" + ("" if ok else ": an empty block is rejected by the parser"),
                    "dissect/cobaltstrike/c2profile.lark", 0)
     ctx.rep.count("block_forms", n, floor=25)
+
+
+# =====================================================================================================================
+# R9 - every statement form of the profile language is still accepted where it was ("every statement form the grammar
+# supports - all blocks, variants, options, data transforms, execute and BeaconGate lists - is accepted").
+#
+# The compiled grammar is turned into its LANGUAGE VIEW: for every block context (the stack of block keywords that
+# encloses a statement: `` = top level, `http-get.client`, `stage.beacon_gate` ...) the set of statement forms the
+# grammar accepts there, a form being the terminal sequence of a production - keywords and punctuation as written,
+# `<STRING>` for a string literal, `{ }` for a block of any content (empty bodies are R5's business).  The view is
+# computed from the productions only, looking THROUGH everything that leaves no token: rule names, `?inline` / `_spliced`
+# / unit productions (`x: y`), lark's `__x_star_N` repetition helpers, the `steps termination` wrapper of a data
+# transform, the order of the alternatives, one rule shared by several blocks or a copy per block.  Nonterminals that
+# stand outside the braces of a production (`string`, `variant`, a factored-out tail) are replaced by the finitely many
+# token sequences they derive; a kept terminal that is a finite alternation of literals (OPTION) by its words.
+# The view is compared completely with the reference table `_LANGUAGE` below (the Malleable C2 statement forms per block
+# context, as supported by the grammar this checker was written against).  Only ONE direction is a condition: a reference
+# form that is missing from its context is a profile statement the parser now rejects (and a tree the reconstructor can no
+# longer print) -> violated.  Further forms (new options, new blocks) are not a concern of this rule.  A production the
+# view cannot render (recursion outside braces, too many alternatives) -> the contexts below it that miss a form are
+# undecided.  No text is parsed or lexed; nothing is enumerated but the grammar's own finite production table.
+# =====================================================================================================================
+def _st(shape, names):
+    return tuple(shape.replace("@", n) for n in names.split())
+
+
+_DATA_TRANSFORM = _st("@ ;", "base64 base64url mask netbios netbiosu print uri-append") + _st("@ <STRING> ;", "append prepend header parameter")
+_HTTP_OPTIONS = _st("@ <STRING> <STRING> ;", "header parameter") + _st("@ { }", "output")
+_HTTP_CLIENT = _HTTP_OPTIONS + _st("@ { }", "metadata id") + _st("set @ <STRING> ;", "verb")
+_HTTP_GET_POST = _st("set @ <STRING> ;", "uri verb") + _st("@ { }", "client server")
+_PE_TRANSFORM = _st("@ <STRING> ;", "append prepend") + _st("@ <STRING> <STRING> ;", "strrep")
+_LANGUAGE = {
+    "": _st("set @ <STRING> ;", "sample_name data_jitter dns_idle dns_max_txt dns_sleep dns_stager_prepend dns_stager_subhost dns_ttl host_stage jitter maxdns pipename pipename_stager "
+            "sleeptime smb_frame_header ssh_banner ssh_pipename tcp_frame_header tcp_port useragent spawnto spawnto_x86 spawnto_x64 amsi_disable create_remote_thread "
+            "hijack_remote_thread tasks_max_size tasks_proxy_max_size tasks_dns_proxy_max_size")
+        + _st("@ { }", "http-config https-certificate code-signer http-stager http-get http-post stage process-inject post-ex dns-beacon http-beacon")
+        + _st("@ <STRING> { }", "https-certificate http-stager http-get http-post"),
+    "http-config": _st("set @ <STRING> ;", "headers trust_x_forwarded_for block_useragents allow_useragents") + _st("@ <STRING> <STRING> ;", "header"),
+    "https-certificate": _st("set @ <STRING> ;", "C CN L OU O ST validity keystore password"),
+    "code-signer": _st("set @ <STRING> ;", "keystore password alias digest_algorithm timestamp timestamp_url"),
+    "http-stager": _st("set @ <STRING> ;", "uri_x86 uri_x64") + _st("@ { }", "client server"),
+    "http-stager.client": _HTTP_OPTIONS,
+    "http-stager.client.output": _DATA_TRANSFORM,
+    "http-stager.server": _HTTP_OPTIONS,
+    "http-stager.server.output": _DATA_TRANSFORM,
+    "http-get": _HTTP_GET_POST,
+    "http-get.client": _HTTP_CLIENT,
+    "http-get.client.metadata": _DATA_TRANSFORM,
+    "http-get.client.id": _DATA_TRANSFORM,
+    "http-get.client.output": _DATA_TRANSFORM,
+    "http-get.server": _HTTP_OPTIONS,
+    "http-get.server.output": _DATA_TRANSFORM,
+    "http-post": _HTTP_GET_POST,
+    "http-post.client": _HTTP_CLIENT,
+    "http-post.client.metadata": _DATA_TRANSFORM,
+    "http-post.client.id": _DATA_TRANSFORM,
+    "http-post.client.output": _DATA_TRANSFORM,
+    "http-post.server": _HTTP_OPTIONS,
+    "http-post.server.output": _DATA_TRANSFORM,
+    "stage": _st("set @ <STRING> ;", "allocator cleanup magic_pe magic_mz_x86 magic_mz_x64 obfuscate sleep_mask smartinject stomppe userwx checksum compile_time entry_point "
+                 "image_size_x86 image_size_x64 module_x86 module_x64 name rich_header syscall_method data_store_size")
+             + _st("@ <STRING> ;", "string stringw") + _st("@ { }", "transform-x86 transform-x64 beacon_gate"),
+    "stage.transform-x86": _PE_TRANSFORM,
+    "stage.transform-x64": _PE_TRANSFORM,
+    "stage.beacon_gate": _st("@ ;", "None Comms Core Cleanup All InternetOpenA InternetConnectA VirtualAlloc VirtualAllocEx VirtualProtect VirtualProtectEx VirtualFree "
+                             "GetThreadContext SetThreadContext ResumeThread CreateThread CreateRemoteThread OpenProcess OpenThread CloseHandle CreateFileMappingA MapViewOfFile "
+                             "UnmapViewOfFile VirtualQuery DuplicateHandle ReadProcessMemory WriteProcessMemory ExitThread"),
+    "process-inject": _st("set @ <STRING> ;", "allocator bof_allocator bof_reuse_memory min_alloc startrwx userwx") + _st("@ <STRING> ;", "disable")
+                      + _st("@ { }", "transform-x86 transform-x64 execute"),
+    "process-inject.transform-x86": _PE_TRANSFORM,
+    "process-inject.transform-x64": _PE_TRANSFORM,
+    "process-inject.execute": _st("@ ;", "CreateThread CreateRemoteThread NtQueueApcThread NtQueueApcThread-s RtlCreateUserThread SetThreadContext")
+                              + _st("@ <STRING> ;", "CreateThread CreateRemoteThread"),
+    "post-ex": _st("set @ <STRING> ;", "spawnto_x86 spawnto_x64 obfuscate smartinject amsi_disable pipename keylogger thread_hint"),
+    "dns-beacon": _st("set @ <STRING> ;", "dns_idle dns_max_txt dns_sleep dns_ttl maxdns dns_stager_prepend dns_stager_subhost beacon get_A get_AAAA get_TXT put_metadata put_output "
+                      "ns_response") + ("# dns_resolver <STRING> ;",),
+    "http-beacon": _st("set @ <STRING> ;", "library data_required data_required_length"),
+}
+_MAX_FORM_ALTS = 256
+_MAX_BLOCK_NEST = 8
+
+
+class _LanguageView:
+    """Block context -> statement forms of the compiled grammar (see the R9 comment above)."""
+
+    def __init__(self, g: Grammar, lx: "_Lexicon"):
+        self.g, self.lx = g, lx
+        self.forms = {}  # context -> set of forms
+        self.problems = {}  # context -> productions the view could not render
+        self._seq = {}
+        self._seen = set()
+        self._visit("start", ())
+
+    def _term_tokens(self, s):
+        if s.filter_out:
+            return [s.literal if s.literal is not None else f"<{s.name}>"]
+        lex = self.lx.of_terminal.get(s.name)
+        if lex and len(lex) <= _MAX_FORM_ALTS and not any(v.startswith("<") for v in lex):
+            return sorted(lex)
+        if lex == {_STRING_CLASS}:
+            return [_STRING_CLASS]
+        return [f"<{s.name}>"]
+
+    def _seqs(self, name, stack=()):
+        """The token sequences a nonterminal derives if they are finitely many and hold no block, else None."""
+        if name in self._seq:
+            return self._seq[name]
+        if name in stack:
+            return None
+        out = set()
+        for r in self.g.by_origin.get(name, []):
+            alts = [()]
+            for s in r.expansion:
+                if s.is_term:
+                    toks = self._term_tokens(s)
+                    nxt = None if ("{" in toks or "}" in toks) else [(t,) for t in toks]
+                else:
+                    sub = self._seqs(s.name, stack + (name,))
+                    nxt = None if sub is None else sorted(sub)
+                if nxt is None or len(alts) * len(nxt) > _MAX_FORM_ALTS:
+                    alts = None
+                    break
+                alts = [a + b for a in alts for b in nxt]
+            if alts is None:
+                out = None
+                break
+            out.update(alts)
+        if not stack:
+            self._seq[name] = out
+        return out
+
+    def _visit(self, name, path):
+        if (name, path) in self._seen:
+            return
+        self._seen.add((name, path))
+        key = ".".join(path)
+        forms = self.forms.setdefault(key, set())
+        for r in self.g.by_origin.get(name, []):
+            if not any(s.is_term for s in r.expansion):
+                # leaves no token of its own: start, ?value, data_transform, steps, __x_star_N, `x: y` ...
+                for s in r.expansion:
+                    self._visit(s.name, path)
+                continue
+            alts, depth, head, bodies, bad = [()], 0, [], [], None
+            for s in r.expansion:
+                if s.is_term:
+                    nxt = [(t,) for t in self._term_tokens(s)]
+                    if s.filter_out and s.literal == "{":
+                        depth += 1
+                    elif s.filter_out and s.literal == "}":
+                        depth -= 1
+                        if depth < 0:
+                            break
+                    elif depth > 0:
+                        bad = "a terminal inside the braces of the production"
+                        break
+                    elif s.filter_out and s.literal is not None and not bodies:
+                        head.append(s.literal)
+                elif depth > 0:
+                    bodies.append(s.name)
+                    continue
+                else:
+                    sub = self._seqs(s.name)
+                    if sub is None:
+                        bad = f"`{s.name}` outside the braces derives a block, recursion or too many alternatives"
+                        break
+                    nxt = sorted(sub)
+                if len(alts) * len(nxt) > _MAX_FORM_ALTS:
+                    bad = "too many alternatives"
+                    break
+                alts = [a + b for a in alts for b in nxt]
+            if bad is None and depth != 0:
+                bad = "unbalanced braces"
+            if bad is None and bodies and len(path) >= _MAX_BLOCK_NEST:
+                bad = "blocks nested too deeply"
+            if bad is not None:
+                self.problems.setdefault(key, []).append(f"`{r.origin}: {' '.join(x.literal or x.name for x in r.expansion)}` ({bad})")
+                continue
+            forms.update(" ".join(a) for a in alts)
+            if bodies:
+                sub = path + (" ".join(head),)
+                self.forms.setdefault(".".join(sub), set())
+                for b in bodies:
+                    self._visit(b, sub)
+
+
+def _form_head(form):
+    """Keywords of a block form in front of its brace (what the context of its body is called), None for a statement."""
+    toks = form.split()
+    if "{" not in toks:
+        return None
+    return " ".join(t for t in toks[: toks.index("{")] if not t.startswith("<"))
+
+
+def r9(ctx, g: Grammar):
+    view = _LanguageView(g, _lexicon(ctx, g))
+    where = "dissect/cobaltstrike/c2profile.lark"
+    n = nforms = 0
+    for key in sorted(_LANGUAGE):
+        ref = _LANGUAGE[key]
+        path = key.split(".") if key else []
+        # is the block of this context still a statement form of the enclosing context?  (if not, that is reported there)
+        cut = False
+        for i in range(len(path)):
+            parent = ".".join(path[:i])
+            have = view.forms.get(parent, set())
+            wanted = [f for f in _LANGUAGE.get(parent, ()) if _form_head(f) == path[i]]
+            if wanted and not any(f in have for f in wanted):
+                cut = True
+                break
+        if cut:
+            continue
+        n += 1
+        nforms += len(ref)
+        have = view.forms.get(key, set())
+        missing = [f for f in ref if f not in have]
+        name = f"`{key.replace('.', ' / ')} {{ }}`" if key else "the top level"
+        text = f"c2profile.lark::statement forms of {name}"
+        extra = len(have - set(ref))
+        if not missing:
+            ctx.rep.ob("R9", "GRAM", text, True, f"all {len(ref)} statement forms of the profile language in {name} are accepted by the compiled grammar"
+                       + (f" ({extra} further form(s) accepted)" if extra else ""), where, 0)
+            continue
+        probs = [p for i in range(len(path) + 1) for p in view.problems.get(".".join(path[:i]), [])]
+        listed = "; ".join(f"`{f}`" for f in missing[:8]) + (f" ... ({len(missing)} in all)" if len(missing) > 8 else "")
+        if probs:
+            ctx.rep.ob("R9", "GRAM", text, False, f"UNDECIDED: {listed} not found in {name}, but the language view of the grammar is incomplete there: " + "; ".join(probs[:3]), where, 0,
+                       undecided=True)
+        else:
+            ctx.rep.ob("R9", "GRAM", text, False, f"the compiled grammar no longer accepts {listed} in {name}: a profile with that statement is rejected by the parser "
+                       f"and a tree holding it cannot be printed ({len(ref) - len(missing)} of {len(ref)} reference forms accepted there)", where, 0)
+    ctx.rep.count("language_contexts", n, floor=34)
+    ctx.rep.count("language_forms", nforms, floor=320)
 
 
 # =====================================================================================================================
